@@ -312,7 +312,7 @@ func (g *Gen) ledgerScenario(steps int) {
 				}
 			}
 			bi := len(w.Blocks)
-			g.emit(fmt.Sprintf("blk %d pre=%d prop=m1 aw=%d txs=%s", bi, base, len(w.Txs), strings.Join(ids, ",")))
+			g.emit(fmt.Sprintf("blk %d pre=%d prop=m1 aa=%d aw=%d txs=%s", bi, base, w.Award, len(w.Txs), strings.Join(ids, ",")))
 			if g.r.Chance(1, 8) {
 				unconfirmed = append(unconfirmed, bi) // arrives later (or never)
 			} else {
@@ -335,9 +335,9 @@ func (g *Gen) ledgerScenario(steps int) {
 			} else if len(w.Blocks) > 1 {
 				// child of a block that was never confirmed
 				bi := len(w.Blocks)
-				g.emit(fmt.Sprintf("blk %d pre=%d prop=m1 aw=%d txs=", bi, stored[len(stored)-1], len(w.Txs)))
+				g.emit(fmt.Sprintf("blk %d pre=%d prop=m1 aa=%d aw=%d txs=", bi, stored[len(stored)-1], w.Award, len(w.Txs)))
 				bj := len(w.Blocks)
-				g.emit(fmt.Sprintf("blk %d pre=%d prop=m1 aw=%d txs=", bj, bi, len(w.Txs)))
+				g.emit(fmt.Sprintf("blk %d pre=%d prop=m1 aa=%d aw=%d txs=", bj, bi, w.Award, len(w.Txs)))
 				g.emit(fmt.Sprintf("confirm %d", bj))
 				g.emit("lcheck")
 				unconfirmed = append(unconfirmed, bi)
